@@ -500,8 +500,13 @@ static const char *str_search(const char *needle, const char *haystack, int hays
 
 static bool parse_comment(TokenContext &ctx, Chunk &pc)
 {
-   bool   is_d    = language_is_set(lang_flag_e::LANG_D);
-   bool   is_cs   = language_is_set(lang_flag_e::LANG_CS);
+   bool is_d = language_is_set(lang_flag_e::LANG_D);
+   // a backslash at the end of a '//' comment continues it only where lines are spliced
+   bool is_cs = (  language_is_set(lang_flag_e::LANG_CS)
+                || language_is_set(lang_flag_e::LANG_JAVA)
+                || language_is_set(lang_flag_e::LANG_ECMA)
+                || language_is_set(lang_flag_e::LANG_VALA)
+                || is_d);
    size_t d_level = 0;
 
    // does this start with '/ /' or '/ *' or '/ +' (d)
